@@ -106,6 +106,30 @@ def run(repo, res):
     ok = 'arg.idx == [0]' in t and 'isinstance(self.parent, ClassScope)' in t and 'self.parent.resolve(ctx).call(ctx)' in t
     res.check('C06-R4', 'first parameter of a method is the instance', ok, 'supp/scope.py', ga.lineno,
               'get_argument must return parent.resolve(ctx).call(ctx) exactly for parameter index [0] under a class scope')
+    # parameter indices (E1): the i-th positional parameter (positional-only ones first) carries idx [i]; get_argument
+    # recognises the instance parameter by idx == [0]
+    from .. import rules_e1 as R
+    bad = []
+    nidx = 0
+    for cls in ('FunctionDef', 'AsyncFunctionDef', 'Lambda'):
+        for sm in R.summaries(repo).get(cls, []):
+            bp = R.base_path(sm)
+            if bp is None or bp.raised is not None:
+                continue
+            a = sm.root.fields['args']
+            order = [x.fields['arg'] for x in list(a.fields['posonlyargs']) + list(a.fields['args'])]
+            for i, ident in enumerate(order):
+                for b in bp.binds:
+                    if b.get('ident') == str(ident) and b.get('cls') == 'ArgumentName':
+                        nidx += 1
+                        if b.get('idx') != [i]:
+                            bad.append((cls, sm.variant, str(ident), b.get('idx'), i))
+    res.count('parameter_index_bindings', nidx, floor=100)
+    res.check('C06-R4', 'positional parameters are numbered in signature order', not bad, 'supp/scope.py', 0,
+              'the positional parameter %s of a %s is given index %s, its position in the signature is %s: the first parameter of a '
+              'method (idx [0]) is what binds `self` to the instance - with a positional-only self every `self.x = ...` is lost'
+              % ((bad[0][2], bad[0][0], bad[0][3], bad[0][4]) if bad else ('', '', '', '')),
+              sample='%d parameter bindings carry their signature position as idx' % nidx)
     asg = repo.method('supp/scope.py', 'SourceScope', 'assigns')
     ok = 'context_property' in [unparse(d) for d in asg.decorator_list] and 'result.setdefault(attr_val' in unparse(asg)
     res.check('C06-R4', 'assigns groups by receiver identity behind a memo', ok, 'supp/scope.py', asg.lineno,
